@@ -344,6 +344,22 @@ func errselMain(s *simrt.Sim, info *harness.RunInfo) {
 		if op.path == "" {
 			op.path = "/"
 		}
+		if len(op.path) > 2 && s.Chance(80) {
+			// the same place spelled differently on the wire: one letter percent-encoded, or a doubled
+			// slash. The application routes on the path as sent (UnescapePath is off), so this is another
+			// path, outside every mount whose prefix it no longer spells
+			if s.Chance(500) {
+				for k := 1; k < len(op.path); k++ {
+					if c := op.path[k]; c >= 'a' && c <= 'z' {
+						op.path = op.path[:k] + fmt.Sprintf("%%%02X", c) + op.path[k+1:]
+						break
+					}
+				}
+			} else {
+				op.path = "/" + op.path
+			}
+			s.Count("probe_path_spelled_with_escape_or_double_slash")
+		}
 		// a pooled context serves consecutive requests of one connection: follow a
 		// request with one of exactly the same byte length in another error scope
 		if len(ops) > 0 && s.Chance(350) {
